@@ -91,11 +91,11 @@ def run_site(site, ct, lab, ex, unc):
     if site == "ssi.SSI_mpe":
         Fn, Xi, Phi, oo, fc, xc, pc = ssi.SSI_mpe(list(req), ct["Fn"].copy(), ct["Xi"].copy(), ct["Phi"].copy(), order,
                                                    Lab=lab.copy(), rtol=rtol, **cov)
-        return Fn, Xi, Phi, oo, fc, xc
+        return Fn, Xi, Phi, oo, fc, xc, pc
     if site == "plscf.pLSCF_mpe":
         Fn, Xi, Phi, oo = plscf.pLSCF_mpe(list(req), ct["Fn"].copy(), ct["Xi"].copy(), ct["Phi"].copy(), order,
                                            Lab=lab.copy(), rtol=rtol)
-        return Fn, Xi, Phi, oo, None, None
+        return Fn, Xi, Phi, oo, None, None, None
     if site == "SSIcov.mpe":
         alg = A.SSIcov(name="x", br=2, ordmax=ct["Fn"].shape[1] - 1)
         alg._set_data(np.zeros((8, 3)), fs=200.0)
@@ -103,14 +103,14 @@ def run_site(site, ct, lab, ex, unc):
         alg.result = SSIResult(Fn_poles=ct["Fn"].copy(), Xi_poles=ct["Xi"].copy(), Phi_poles=ct["Phi"].copy(), Lab=lab.copy(), **kw)
         alg.mpe(sel_freq=list(req), order=order, rtol=rtol)
         r = alg.result
-        return r.Fn, r.Xi, r.Phi, r.order_out, r.Fn_cov, r.Xi_cov
+        return r.Fn, r.Xi, r.Phi, r.order_out, r.Fn_cov, r.Xi_cov, r.Phi_cov
     if site == "pLSCF.mpe":
         alg = A.pLSCF(name="x", ordmax=ct["Fn"].shape[1])
         alg._set_data(np.zeros((8, 3)), fs=200.0)
         alg.result = pLSCFResult(Fn_poles=ct["Fn"].copy(), Xi_poles=ct["Xi"].copy(), Phi_poles=ct["Phi"].copy(), Lab=lab.copy())
         alg.mpe(sel_freq=list(req), order=order, rtol=rtol)
         r = alg.result
-        return r.Fn, r.Xi, r.Phi, r.order_out, None, None
+        return r.Fn, r.Xi, r.Phi, r.order_out, None, None, None
     raise AssertionError(site)
 
 
@@ -136,7 +136,7 @@ def check_case(col, cfgname, t, sites=None):
         for unc in ((False, True) if site.startswith(("ssi.", "SSIcov")) else (False,)):
             col.count()
             try:
-                Fn, Xi, Phi, oo, fc, xc = run_site(site, ct, lab, ex, unc)
+                Fn, Xi, Phi, oo, fc, xc, pc = run_site(site, ct, lab, ex, unc)
             except Exception as e:
                 col.violation(f"{site}/{ex['kind']}/raised:{type(e).__name__}",
                               f"{site} raised {e!r} for table {tab} request {ex}",
@@ -160,8 +160,9 @@ def check_case(col, cfgname, t, sites=None):
                         okp = Phi.ndim == 2 and Phi.shape[1] == len(Fn) and np.array_equal(Phi[:, k], ct["Phi"][r, c, :])
                         okc = True
                         if unc:
-                            okc = (fc is not None and np.atleast_1d(fc)[k] == ct["Fn_cov"][r, c]
-                                   and np.atleast_1d(xc)[k] == ct["Xi_cov"][r, c])
+                            okc = (fc is not None and xc is not None and pc is not None
+                                   and np.atleast_1d(fc)[k] == ct["Fn_cov"][r, c] and np.atleast_1d(xc)[k] == ct["Xi_cov"][r, c]
+                                   and np.ndim(pc) == 2 and np.shape(pc)[1] == len(Fn) and np.array_equal(np.asarray(pc)[:, k], ct["Phi_cov"][r, c, :]))
                         if okf and okx and okp and okc:
                             hit = True
                             break
